@@ -10,6 +10,7 @@ Open Scope list_scope.
 
 Section S.
 Context {A : Type} {O : atom_ops A} (L : atom_laws O).
+Hypothesis Hguide : @guide A O = None.
 Notation val := (val A).
 Notation wf1 := (vwf_gen true).
 
@@ -62,7 +63,7 @@ Proof.
   intros Hwo Hwn Hk. rewrite (proj2 (vobject_delta_exact o n Hwo Hwn Hk) k). unfold field_delta.
   destruct (vwf_obj_inv true o Hwo) as [_ [_ Hwfo]]. destruct (vwf_obj_inv true n Hwn) as [_ [_ Hwfn]].
   destruct (lookup k o) as [ov|] eqn:Eo, (lookup k n) as [nv|] eqn:En.
-  - rewrite (vdiff_none_iff L ov nv (Hwfo _ _ Eo) (Hwfn _ _ En)). split; [intros H; constructor; exact H | intros H; inversion H; assumption].
+  - rewrite (vdiff_none_iff L Hguide ov nv (Hwfo _ _ Eo) (Hwfn _ _ En)). split; [intros H; constructor; exact H | intros H; inversion H; assumption].
   - split; [discriminate | intros H; inversion H].
   - split; [discriminate | intros H; inversion H].
   - split; [constructor | reflexivity].
@@ -70,7 +71,7 @@ Qed.
 
 (** * Lists *)
 Theorem varray_delta_exact (o n : list val) :
-  let idx := vcompute_reorder_indices o n in
+  let idx := vchoose o n in
   let d := entries (VDiff (VArr o) (VArr n)) in
   (VDiff (VArr o) (VArr n) = None \/ VDiff (VArr o) (VArr n) = Some (VObj d))
   /\ lookup dollar d = (if Nat.eqb (List.length o) (List.length n) && order_is_identity 0 idx then None
@@ -78,7 +79,7 @@ Theorem varray_delta_exact (o n : list val) :
   /\ forall i v j, nth_error n i = Some v -> nth_error idx i = Some j -> lookup (dec i) d = VDiff (voldI o j) v.
 Proof.
   intros idx d. subst d. unfold VDiff. rewrite vdiff_arr. unfold vdiff_array. fold idx.
-  assert (Hlen : List.length idx = List.length n) by apply vreorder_indices_length.
+  assert (Hlen : List.length idx = List.length n) by apply vchoose_length.
   rewrite Hlen.
   set (oc := negb (Nat.eqb (List.length o) (List.length n)) || negb (order_is_identity 0 idx)).
   set (el := vdiff_elems o 0 (varr_subs n) idx).
